@@ -66,7 +66,7 @@ pub fn tokenize(src: Vec<char>, src_file_path: String) -> Result<Vec<Token>, Pak
     while current_i < src.len() {
         // c represents total chars consumed by token t
         // l represents total line consumed by token t
-        let (t, c, l) = consume(&src, current_i, line, src_file_path.clone())?;
+        let (t, c, l) = consume(&src, current_i, line, src_file_path.clone(), tokens.last().map(|t| &t.kind))?;
         if let Some(token) = t {
             tokens.push(token);
         }
@@ -83,15 +83,21 @@ pub fn tokenize(src: Vec<char>, src_file_path: String) -> Result<Vec<Token>, Pak
     Ok(tokens)
 }
 
-fn consume(src: &Vec<char>, start: usize, line: u32, src_file_path: String) -> Result<(Option<Token>, usize, u32), PakhiErr> {
+fn consume(src: &Vec<char>, start: usize, line: u32, src_file_path: String, prev: Option<&TokenKind>) -> Result<(Option<Token>, usize, u32), PakhiErr> {
     let consumed_char: usize;
     let consumed_line: u32;
     let token: Token;
 
     match src[start] {
         '-'|'০'|'১'|'২'|'৩'|'৪'|'৫'|'৬'|'৭'|'৮'|'৯' => {
+            // '-' is the sign of a literal only where an operand may start; after an operand it is the binary operator
+            let after_operand = match prev {
+                Some(TokenKind::Num(_)) | Some(TokenKind::String(_)) | Some(TokenKind::Identifier) | Some(TokenKind::Bool(_)) |
+                Some(TokenKind::ParenEnd) | Some(TokenKind::SquareBraceEnd) => true,
+                _ => false,
+            };
             let next_is_numeric = src.get(start+1).map_or(false, |c| c.is_numeric());
-            if src[start].is_numeric() || next_is_numeric {
+            if src[start].is_numeric() || (next_is_numeric && !after_operand) {
                 // negative number, unary '-' operator
                 let (val, consumed) = consume_num(src, start, line, &src_file_path)?;
 
